@@ -104,6 +104,24 @@ Proof. exact advance_after_handout. Qed.
 Print Assumptions C02_advance_gap_free.
 
 
+(* (7b) Ready.appliedCursor / Advance when the Ready carries a SNAPSHOT and the committed entries after it (MsgSnap and
+        the following MsgApp handled by one StepNode): the cursor is the last committed entry — the maximum of the
+        snapshot index and every handed-out index — so the next hand-out starts after it and nothing is handed out twice *)
+Theorem C02_applied_cursor_is_max : forall cents snap lo, contig lo cents -> cents <> [] -> snap < lo ->
+  applied_cursor cents snap = lo + nlen cents - 1 /\
+  applied_cursor cents snap = N.max snap (lo + nlen cents - 1) /\
+  snap < applied_cursor cents snap /\
+  forall x, In x cents -> eindex x <= applied_cursor cents snap.
+Proof. exact applied_cursor_max. Qed.
+Print Assumptions C02_applied_cursor_is_max.
+
+Theorem C02_advance_after_snapshot_and_entries : forall l cents snap lo l',
+  contig lo cents -> cents <> [] -> snap < lo -> advance_applied l cents snap = Ok l' ->
+  l_applied l' = lo + nlen cents - 1 /\ snap < l_applied l' /\ (forall x, In x cents -> eindex x <= l_applied l') /\
+  l_committed l' = l_committed l /\ l_u l' = l_u l /\ l_st l' = l_st l.
+Proof. exact advance_applied_after_snapshot_and_entries. Qed.
+Print Assumptions C02_advance_after_snapshot_and_entries.
+
 (* (8) raft.maybeCommit's index selection (sort the voters' Match, take element len-quorum): the chosen
        index is one of the Match values and at least quorum-many voters have Match >= it — an index is
        only offered for commit when a majority of the voter list holds it *)
@@ -355,3 +373,6 @@ Example C02_ex_rocks_handout :
             | _ => False end
   | _ => False end.
 Proof. vm_compute. reflexivity. Qed.
+Example C02_ex_applied_cursor : applied_cursor [mkE 3 10 0 0; mkE 3 11 0 0] 9 = 11 /\ applied_cursor [] 9 = 9 /\
+                                applied_cursor [mkE 3 10 0 0] 0 = 10 /\ applied_cursor [] 0 = 0.
+Proof. vm_compute. repeat split. Qed.
